@@ -126,6 +126,44 @@ pub fn run_case(ctx: &mut Ctx, fam: &str, k: u64, r: &mut Rng) {
                     }
                 }
             }
+            // reshaped views of the same buffer are indexed under THEIR dimensions, also right after the base was indexed
+            // under its own (and the other way round)
+            if n > 1 {
+                let mut alts: Vec<Vec<usize>> = vec![vec![n], vec![1, n], vec![n, 1]];
+                if d.len() > 1 {
+                    let mut rev = d.clone();
+                    rev.reverse();
+                    alts.push(rev);
+                }
+                for f in 2..n {
+                    if n % f == 0 {
+                        alts.push(vec![f, n / f]);
+                    }
+                }
+                alts.retain(|x| x != &d);
+                let alt = r.pick(&alts).clone();
+                let res = guard(|| {
+                    let view = a.reshape(alt.clone());
+                    let mut bad: Option<String> = None;
+                    for f in 0..n {
+                        let iv = unravel(f, &alt);
+                        let ib = unravel(f, &d);
+                        let (gv, gb, gv2) = (view[iv.clone()] as f64, a[ib.clone()] as f64, view[iv.clone()] as f64);
+                        if gv != v[f] || gb != v[f] || gv2 != v[f] {
+                            bad = Some(format!("view{:?}[{:?}] = {} / {}, base{:?}[{:?}] = {}, row-major element {} is {}", alt, iv, gv, gv2, d, ib, gb, f, v[f]));
+                            break;
+                        }
+                    }
+                    bad
+                });
+                ctx.count("indices_checked", 3 * n as u64);
+                ctx.count("views_indexed_alternately_with_their_base", 1);
+                match res {
+                    Ok(None) => {}
+                    Ok(Some(msg)) => ctx.violation("C16|index|view-and-base", format!("indexing a reshaped view and its base alternately: {}", msg)),
+                    Err(msg) => ctx.violation("C16|index|view-and-base-panic", format!("indexing Array{:?} and its reshape to {:?} alternately panicked: {}", d, alt, msg)),
+                }
+            }
             // a constructed array is a plain one whatever state its children are in: untracked, no gradient, no graph
             // (nothing flows from it into a tracked child), owning its buffer; a kept child stays usable and unchanged
             {
@@ -306,6 +344,27 @@ pub fn run_case(ctx: &mut Ctx, fam: &str, k: u64, r: &mut Rng) {
                         }
                         if !e3 || !e4 || !e5 {
                             ctx.violation("C16|equality|shared-buffer-same-dims", format!("Array{:?} != a view/alias/clone of itself with the same dimensions", d));
+                        }
+                    }
+                    Err(m) => ctx.violation("C16|equality|panic", format!("== panicked: {}", m)),
+                }
+            }
+            // zero is zero whatever its sign: an array of 0.0 equals one of -0.0 (written down, or computed as 0 * -1)
+            if r.chance(1, 4) {
+                ctx.count("equality_cells", 1);
+                ctx.hist("equality_table", "signed-zeros");
+                let mixed: Vec<f64> = v.iter().enumerate().map(|(i, x)| if i % 2 == 0 { 0.0 } else { *x }).collect();
+                match guard(|| {
+                    let pos = arr(&d, &mixed);
+                    let neg_written = arr(&d, &mixed.iter().map(|x| if *x == 0.0 { -0.0 } else { *x }).collect::<Vec<f64>>());
+                    let neg_computed = &(&pos * (-1.0 as Float)) * (-1.0 as Float);
+                    let z = Array::from(d.clone());
+                    let nz = -&z;
+                    (pos == neg_written, neg_written == pos, pos == (&neg_computed + &nz), z == nz)
+                }) {
+                    Ok((e1, e2, e3, e4)) => {
+                        if !(e1 && e2 && e3 && e4) {
+                            ctx.violation("C16|equality|signed-zero", format!("Array{:?}{}: arrays that differ only in the sign of their zeros compared unequal ({} {} {} {})", d, short(&mixed), e1, e2, e3, e4));
                         }
                     }
                     Err(m) => ctx.violation("C16|equality|panic", format!("== panicked: {}", m)),
